@@ -13,7 +13,7 @@ THEOREM_NAMES = ['split_spec', 'split_connected_id', 'split_fuel_mono', 'split_p
 THEOREMS = ['Dsd.C09.' + t for t in THEOREM_NAMES] + ['Dsd.PyFuncs.' + t for t in [
     # split_complex_pt as written in the source (Gen/PyFuncs.lean, regenerated on every run): generator, recursion, splice, seen dict
     'py_split_complex_pt_eq', 'py_split_complex_pt_eq_lm', 'py_split_of_py_pair_table', 'py_split_spec', 'py_split_malformed_faults',
-    'py_make_loop_index_eq', 'py_make_pair_table_eq']]
+    'py_make_loop_index_eq', 'py_make_pair_table_eq', 'py_split_complex_db_eq', 'py_split_complex_db_wellformed']]
 ASSUMPTIONS = [
     'split_complex_pt is hand-modelled (Model/Complex.lean: splitScan, splice, splitPt with fuel = number of strands + 1) and tied to '
     'the code by the correspondence stream `split`',
